@@ -98,6 +98,12 @@ def run_dicke(ctx, states, rng):
                 dense[idx, I, J] = V
             if core.gt(np.abs(dense.reshape(want.shape) - want).max(), TOL):
                 bad('get_partial_trace_ABk_to_AB_index', 'index-list form differs')
+            if d == 2 and n > 1:
+                # the qubit special case returns the three non-zero diagonals of the same table
+                a00, a01, a11 = Dk.get_qubit_dicke_partial_trace(n)
+                if (core.gt(np.abs(a00 - np.diag(want[0, 0])).max(), TOL) or core.gt(np.abs(a11 - np.diag(want[1, 1])).max(), TOL)
+                        or core.gt(np.abs(a01 - np.diag(want[0, 1], -1)).max(), TOL) or core.gt(np.abs(a01 - np.diag(want[1, 0], 1)).max(), TOL)):
+                    bad('get_qubit_dicke_partial_trace', 'diagonals differ from the exact reduction table')
             # fast reduction vs explicit embedding + exact partial trace, numpy and torch
             for dimA in (2, 3):
                 if dimA * d ** n > 400:
